@@ -1571,6 +1571,20 @@ def rule_grow(rep, inst, R="C03.grow"):
             decl_at = {}
             size_store_at = resize_at = None
             patch = None
+            # a path that takes both outcomes of the same test of an unmodified parameter (if (b) ... if (b && ...)) cannot be executed
+            seen_c = {}
+            infeasible = False
+            for st in path:
+                if st[0] == "cond":
+                    c0 = ir.sx(st[1])
+                    while c0[0] == "cast":
+                        c0 = c0[3]
+                    if c0[0] == "ref" and c0[1] in (asize, b):
+                        if seen_c.get(c0, st[2]) != st[2]:
+                            infeasible = True
+                        seen_c[c0] = st[2]
+            if infeasible:
+                continue
             for i, st in enumerate(path):
                 if st[0] == "decl":
                     decl_at[st[1].get("name")] = i
@@ -1659,8 +1673,21 @@ def rule_grow(rep, inst, R="C03.grow"):
                         hops = 0
                         while hops < 4:
                             sx_ = ir.strip(src)
-                            if sx_.get("kind") == "DeclRefExpr" and (sx_.get("referencedDecl") or {}).get("name") in decl_nodes and ir.ekids(decl_nodes[(sx_.get("referencedDecl") or {}).get("name")]):
-                                src = ir.ekids(decl_nodes[(sx_.get("referencedDecl") or {}).get("name")])[-1]
+                            while sx_.get("kind") in ("ImplicitCastExpr", "ParenExpr") and ir.ekids(sx_):
+                                sx_ = ir.strip(ir.ekids(sx_)[0])
+                            vname = (sx_.get("referencedDecl") or {}).get("name") if sx_.get("kind") == "DeclRefExpr" else None
+                            # the value the local holds on THIS path: its last assignment before the patch, else its initialiser
+                            last = None
+                            for st2 in path[:at]:
+                                if st2[0] == "ev" and st2[1].get("kind") == "BinaryOperator" and st2[1].get("opcode") == "=":
+                                    l2 = ir.strip(ir.ekids(st2[1])[0])
+                                    if l2.get("kind") == "DeclRefExpr" and (l2.get("referencedDecl") or {}).get("name") == vname:
+                                        last = ir.ekids(st2[1])[1]
+                            if vname is not None and last is not None:
+                                src = last
+                                hops += 1
+                            elif vname in decl_nodes and ir.ekids(decl_nodes[vname]):
+                                src = ir.ekids(decl_nodes[vname])[-1]
                                 hops += 1
                             else:
                                 break
